@@ -238,8 +238,12 @@ def hint_src(h, opt):
 # compiler emits for the snippet (dup = emitted twice by compile_assign_to_map_finish).
 
 class T:
-    def __init__(self, name, kind, lines, asserts=0, checks=0, value=None, throw=False, known=None, group=""):
+    def __init__(self, name, kind, lines, asserts=0, checks=0, value=None, throw=False, known=None, group="",
+                 out=None, expect=None):
         self.name, self.kind, self.lines = name, kind, lines
+        self.out = out or []      # lines printed by the snippet once its hint has passed (or checks are off);
+        #                           a list or a function of the checked value's descriptor
+        self.expect = expect      # check kind: label printed for (descriptor, hint, opt); default hit / miss
         self.asserts, self.checks = asserts, checks
         self.value = value        # the checked value is not `v` but this descriptor
         self.throw = throw        # `v` is thrown: needs a string or an object with @display
@@ -255,10 +259,13 @@ TEMPLATES = [
     T("let_ignored", A, ["let _: {H} = v"], 1, group="let"),
     T("let_export", A, ["export let x: {H} = v"], 1, group="let"),
     T("multi_temp", A, ["let a: Any, x: {H} = 1, v"], 2, group="multi-assign"),
-    T("multi_temp_first", A, ["let x: {H}, b = v, 1"], 1, group="multi-assign"),
-    T("multi_temp_ignored", A, ["let a, _y: {H} = 1, v"], 1, group="multi-assign"),
-    T("multi_iter", A, ["rhs = (1, v)", "let a, x: {H} = rhs"], 1, group="multi-assign"),
-    T("multi_iter_ignored", A, ["rhs = (v, 1)", "let _y: {H}, b = rhs"], 1, group="multi-assign"),
+    T("multi_temp_first", A, ["let x: {H}, b = v, 1", "print b"], 1, group="multi-assign", out=["1"]),
+    T("multi_temp_ignored", A, ["let a, _y: {H}, c = 1, v, 3", "print a", "print c"], 1, group="multi-assign",
+      out=["1", "3"]),
+    T("multi_iter", A, ["rhs = (1, v, 3)", "let a, x: {H}, c = rhs", "print a", "print c"], 1, group="multi-assign",
+      out=["1", "3"]),
+    T("multi_iter_ignored", A, ["rhs = (v, 1, 2)", "let _y: {H}, b, c = rhs", "print b", "print c"], 1,
+      group="multi-assign", out=["1", "2"]),
     T("let_map", A, ["let {x: {H}} = {x: v}"], 2, group="map pattern"),
     T("let_map_rebind", A, ["let {x as y: {H}} = {x: v}"], 2, group="map pattern"),
     T("let_map_second", A, ["let {w, x: {H}} = {w: 0, x: v}"], 2, group="map pattern"),
@@ -268,19 +275,24 @@ TEMPLATES = [
     T("for_map_rebind_ignored", A, ["for {x as _: {H}} in [{x: v}]", "  z = 1"], 1, group="map pattern"),
     T("for_single", A, ["for x: {H} in [v]", "  z = 1"], 1, group="for arg"),
     T("for_ignored", A, ["for _: {H} in [v]", "  z = 1"], 1, group="for arg"),
-    T("for_multi", A, ["for i, x: {H} in [(0, v)]", "  z = 1"], 1, group="for arg"),
-    T("for_multi_ignored", A, ["for i, _x: {H} in [(0, v)]", "  z = 1"], 1, group="for arg"),
-    T("for_second_iteration", A, ["for x: {H} in [v, v]", "  z = 1"], 1, group="for arg"),
+    T("for_multi", A, ["for i, x: {H}, j in [(0, v, 5)]", "  print i", "  print j"], 1, group="for arg", out=["0", "5"]),
+    T("for_multi_ignored", A, ["for i, _x: {H}, j in [(0, v, 5)]", "  print i", "  print j"], 1, group="for arg",
+      out=["0", "5"]),
+    T("for_second_iteration", A, ["for x: {H} in [v, v]", "  print 'it'"], 1, group="for arg", out=["it", "it"]),
     T("for_map", A, ["for {x: {H}} in [{x: v}]", "  z = 1"], 2, group="map pattern"),
     T("arg", A, ["f = |x: {H}| 1", "f v"], 1, group="function arg"),
-    T("arg_ignored", A, ["f = |_: {H}| 1", "f v"], 1, group="function arg"),
-    T("arg_second", A, ["f = |a, x: {H}| 1", "f 0, v"], 1, group="function arg"),
+    T("arg_ignored", A, ["f = |a, _: {H}, b|", "  print a", "  print b", "f 0, v, 5"], 1, group="function arg",
+      out=["0", "5"]),
+    T("arg_second", A, ["f = |a, x: {H}, b|", "  print a", "  print b", "f 0, v, 5"], 1, group="function arg",
+      out=["0", "5"]),
     T("arg_default", A, ["f = |a, x: {H} = 'd'| 1", "f 0, v"], 1, group="function arg"),
     T("arg_default_used", A, ["f = |a, x: {H} = v| 1", "f 0"], 1, group="function arg"),
     T("arg_before_variadic", A, ["f = |x: {H}, rest...| 1", "f v, 1, 2"], 1, group="function arg"),
     T("arg_method", A, ["m = {f: |x: {H}| 1}", "m.f v"], 1, group="function arg"),
-    T("arg_nested", A, ["f = |(a, x: {H})| 1", "f (0, v)"], 1, group="nested arg"),
-    T("arg_nested_ignored", A, ["f = |(a, _: {H})| 1", "f (0, v)"], 1, group="nested arg"),
+    T("arg_nested", A, ["f = |(a, x: {H}, b)|", "  print a", "  print b", "f (0, v, 5)"], 1, group="nested arg",
+      out=["0", "5"]),
+    T("arg_nested_ignored", A, ["f = |(a, _: {H}, b)|", "  print a", "  print b", "f (0, v, 5)"], 1, group="nested arg",
+      out=["0", "5"]),
     T("arg_nested_deep", A, ["f = |(a, (b, x: {H}))| 1", "f (0, (1, v))"], 1, group="nested arg"),
     T("arg_nested_from_end", A, ["f = |(first..., x: {H})| 1", "f (0, 1, v)"], 1, group="nested arg"),
     T("arg_nested_before_rest", A, ["f = |(x: {H}, rest...)| 1", "f (v, 1, 2)"], 1, group="nested arg"),
@@ -321,6 +333,163 @@ TEMPLATES = [
 TBYNAME = {t.name: t for t in TEMPLATES}
 
 
+# ---------------------------------------------------------------------------
+# structured templates: match arms with `or` alternatives, series of typed catch blocks,
+# multi-assignments with typed ids / typed wildcards in every position and every kind of right-hand side.
+# The focus slot carries `{H}`; every other hint is fixed in the template.  Expected behaviour is computed
+# from the documented relation: an arm is selected iff SOME alternative matches (and its guard holds), the first
+# selected arm wins, a failed type check never raises.
+
+OTHER_HINTS = [("Zzz", False), ("Zzz", True), ("Any", False), ("String", False), ("Number", False), ("Map", False),
+               ("Object", False), ("Foo", False), ("Animal", False), ("Dog", True), ("Indexable", False),
+               ("Iterable", False), ("Callable", False), ("Null", False), ("List", True), ("X", False)]
+
+# name: (subject, pattern); {S} = the typed slot, {L} = a literal that equals the subject's (0) or not (9)
+MATCH_CONTEXTS = {
+    "single": ("v", "{S}"),
+    "multi_last": ("0, v", "{L}, {S}"),
+    "multi_first": ("v, 0", "{S}, {L}"),
+    "multi_mid": ("0, v, 1", "{L}, {S}, 1"),
+    "tuple_last": ("(0, v)", "({L}, {S})"),
+    "tuple_first": ("(v, 0)", "({S}, {L})"),
+    "tuple_ellipsis_after": ("(0, v, 1, 2)", "({L}, {S}, ...)"),
+    "tuple_ellipsis_before": ("(1, 2, v, 0)", "(..., {S}, {L})"),
+    "tuple_ellipsis_before_last": ("(0, 1, v)", "(..., {S})"),
+    "tuple_ellipsis_after_first": ("(v, 1, 2)", "({S}, ...)"),
+    "multi_nested": ("0, (1, v)", "{L}, (1, {S})"),
+}
+
+
+def dyn_template(t):
+    TBYNAME.setdefault(t.name, t)
+    return TBYNAME[t.name]
+
+
+def gen_match_template(rng):
+    ctx = rng.choice(sorted(MATCH_CONTEXTS))
+    subject, pat = MATCH_CONTEXTS[ctx]
+    wild = rng.chance(1, 2)
+    n_alts = 1 + rng.below(3)
+    focus = rng.below(n_alts)
+    hints = [None if i == focus else rng.choice(OTHER_HINTS) for i in range(n_alts)]
+    broken = rng.below(n_alts) if ("{L}" in pat and rng.chance(1, 5)) else None      # literal of this alternative differs
+    guard = rng.choice([None, None, None, True, False])
+    arm1 = rng.choice(OTHER_HINTS) if rng.chance(1, 2) else None
+    has_else = rng.chance(3, 4)
+
+    def slot(hs):
+        return ("_: " if wild else "x: ") + hs
+
+    alts = []
+    for i in range(n_alts):
+        hs = "{H}" if i == focus else hint_src(*hints[i])
+        alts.append(pat.replace("{S}", slot(hs)).replace("{L}", "9" if broken == i else "0"))
+    lines = ["r = match " + subject,
+             "  " + " or ".join(alts) + ("" if guard is None else (" if true" if guard else " if false")) + " then 'arm0'"]
+    if arm1:
+        lines.append("  " + pat.replace("{S}", slot(hint_src(*arm1))).replace("{L}", "0") + " then 'arm1'")
+    if has_else:
+        lines.append("  else 'else'")
+    else:
+        lines.append("r = r or 'none'")
+    name = "gm:%s:%s:%d:%d:%s:%s:%s:%s:%s" % (ctx, "w" if wild else "i", n_alts, focus,
+                                               ",".join("-" if x is None else hint_src(*x) for x in hints), broken, guard,
+                                               hint_src(*arm1) if arm1 else "-", has_else)
+
+    def expect(d, h, opt):
+        some = any(broken != i and py_matches(d, *((h, opt) if i == focus else hints[i])) for i in range(n_alts))
+        if some and guard is not False:
+            return "arm0"
+        if arm1 and py_matches(d, *arm1):
+            return "arm1"
+        return "else" if has_else else "none"
+
+    return dyn_template(T(name, K, lines, 0, n_alts + (1 if arm1 else 0), group="match arm (structured)", expect=expect))
+
+
+def gen_catch_template(rng):
+    n = 1 + rng.below(3)
+    focus = rng.below(n)
+    hints = [None if i == focus else rng.choice(OTHER_HINTS) for i in range(n)]
+    wilds = [rng.chance(1, 2) for _ in range(n)]
+    lines = ["r = try", "  throw v"]
+    for i in range(n):
+        hs = "{H}" if i == focus else hint_src(*hints[i])
+        lines += [f"catch {'_' if wilds[i] else 'e'}: {hs}", f"  'c{i}'"]
+    lines += ["catch _" if rng.chance(1, 3) else "catch e", "  'last'"]
+    name = "gc:%d:%d:%s:%s:%s" % (n, focus, ",".join("-" if x is None else hint_src(*x) for x in hints),
+                                  "".join("w" if w else "i" for w in wilds), lines[-2])
+
+    def expect(d, h, opt):
+        for i in range(n):
+            if py_matches(d, *((h, opt) if i == focus else hints[i])):
+                return f"c{i}"
+        return "last"
+
+    return dyn_template(T(name, K, lines, 0, n, throw=True, group="typed catch (structured)", expect=expect))
+
+
+RHS_FORMS = ["temp", "tuple_var", "list_var", "call", "iter", "generator", "range", "string"]
+
+
+def gen_multi_assign_template(rng):
+    n = 2 + rng.below(3)
+    focus = rng.below(n)
+    form = rng.choice(RHS_FORMS)
+    fkind = rng.choice(["id", "wild", "wild", "named_wild"])
+    uniform = form in ("range", "string")       # every element is a Number / a String
+    value = d_basic("number") if form == "range" else (STRV if form == "string" else None)
+    targets, prints, outs, n_typed = [], [], [], 1
+    for i in range(n):
+        elem = str(5 + i) if form == "range" else ("xyzw"[i] if form == "string" else str(10 + i))
+        if i == focus:
+            targets.append({"id": "x: {H}", "wild": "_: {H}", "named_wild": "_q: {H}"}[fkind])
+            if fkind == "id":
+                prints.append("print koto.type x")
+                outs.append(None)
+            continue
+        k = rng.choice(["id", "id", "typed_id", "wild", "typed_wild"])
+        th = "Any" if uniform else rng.choice(["Any", "Number", "Number?"])
+        if k == "id":
+            targets.append(f"t{i}")
+        elif k == "typed_id":
+            targets.append(f"t{i}: {th}")
+            n_typed += 1
+        elif k == "wild":
+            targets.append("_")
+        else:
+            targets.append(f"_: {th}")
+            n_typed += 1
+        if k in ("id", "typed_id"):
+            prints.append(f"print t{i}")
+            outs.append(elem)
+    elems = [("v" if i == focus else str(10 + i)) for i in range(n)]
+    lhs = "let " + ", ".join(targets) + " = "
+    if form == "temp":
+        lines = [lhs + ", ".join(elems)]
+    elif form == "tuple_var":
+        lines = ["rhs = (" + ", ".join(elems) + ")", lhs + "rhs"]
+    elif form == "list_var":
+        lines = ["rhs = [" + ", ".join(elems) + "]", lhs + "rhs"]
+    elif form == "call":
+        lines = ["pair = || (" + ", ".join(elems) + ")", lhs + "pair()"]
+    elif form == "iter":
+        lines = [lhs + "(" + ", ".join(elems) + ").iter()"]
+    elif form == "generator":
+        lines = ["gen = ||"] + ["  yield " + e for e in elems] + [lhs + "gen()"]
+    elif form == "range":
+        lines = [lhs + f"5..{5 + n}"]
+    else:
+        lines = [lhs + "'" + "xyzw"[:n] + "'"]
+    lines += prints
+    name = "ga:%s:%s" % (form, ", ".join(targets))
+
+    def out(d):
+        return [py_type_name(d) if o is None else o for o in outs]
+
+    return dyn_template(T(name, A, lines, n_typed, 0, value=value, group="multi-assign (structured)", out=out))
+
+
 def throwable(d):
     return d["k"] == "string" or is_obj_map(d)
 
@@ -355,13 +524,13 @@ def make_case(origin, snippets):
                 continue
             out.append(f"A{i}")
             if t.kind == K:
-                out += ["hit" if m else "miss", f"B{i}"]
+                out += [t.expect(cv, h, opt) if t.expect else ("hit" if m else "miss"), f"B{i}"]
             elif is_on and not m:
                 on_fails = True
                 if t.known:
                     known = t.known
             else:
-                out.append(f"B{i}")
+                out += (t.out(cv) if callable(t.out) else t.out) + [f"B{i}"]
     lines.append("7")
     return {
         "origin": origin, "src": "\n".join(lines) + "\n", "snippets": snippets,
@@ -429,6 +598,35 @@ def gen_cases(tier, seed):
             if no and (di % 2 == 1 or not yes or reps > 1):
                 add(di, *rng.choice(no))
 
+    # 2b. structured match arms / catch series / multi-assignments
+    def pick_pair(t):
+        pool = [(d, var) for d, var in vals if not t.throw or throwable(d)]
+        d, var = rng.choice(pool)
+        cvd = t.value if t.value is not None else d
+        yes = [(h, o) for h, o in HINTS if h != "Any" and py_matches(cvd, h, o)]
+        no = [(h, o) for h, o in HINTS if not py_matches(cvd, h, o)]
+        h, opt = rng.choice(yes) if (yes and rng.chance(2, 5)) or not no else rng.choice(no)
+        return d, var, h, opt
+
+    scale = 1 if tier == "quick" else 8
+    for maker, origin, count in ((gen_match_template, "structured:match", 1800 * scale),
+                                 (gen_catch_template, "structured:catch", 500 * scale),
+                                 (gen_multi_assign_template, "structured:multi-assign", 900 * scale)):
+        for _ in range(count):
+            t = maker(rng)
+            d, var, h, opt = pick_pair(t)
+            cases.append(make_case(origin, [(t.name, d, var, h, opt)]))
+    if tier != "quick":
+        # every (value, hint) pair of the fixed matrix through two structured arms and one catch series
+        for d, var in vals[:n_fixed]:
+            for h, opt in HINTS:
+                for maker, origin in ((gen_match_template, "structured:match"), (gen_match_template, "structured:match"),
+                                      (gen_catch_template, "structured:catch")):
+                    t = maker(rng)
+                    if t.throw and not throwable(d):
+                        continue
+                    cases.append(make_case(origin, [(t.name, d, var, h, opt)]))
+
     # 3. several hinted positions in one program (offsets across many asserts; ON stops at the first
     #    mismatching assert, OFF runs through)
     n_multi = 400 if tier == "quick" else 6000
@@ -437,7 +635,9 @@ def gen_cases(tier, seed):
         sn = []
         want_fail = rng.chance(1, 3)
         for j in range(k):
-            t = rng.choice(TEMPLATES)
+            r4 = rng.below(8)
+            t = (gen_match_template(rng) if r4 == 0 else gen_catch_template(rng) if r4 == 1
+                 else gen_multi_assign_template(rng) if r4 == 2 else rng.choice(TEMPLATES))
             pool = [(d, var) for d, var in vals if not t.throw or throwable(d)]
             d, var = rng.choice(pool)
             cvd = t.value if t.value is not None else d
